@@ -56,14 +56,18 @@ def work(item):
             ob['check'] = 'bad = b["EXT_FX__NET_NUMERAIRE"] != 0; print("NET_NUMERAIRE", float(b["EXT_FX__NET_NUMERAIRE"]))'
         rec['obs'].append(ob)
     # (i) every cross-zone registered flow: sender -1, receiver +XR_src/XR_tgt
-    for src, dst, name in plan.meta.get('gifts', []):
+    allg = plan.meta.get('gifts', [])
+    for src, dst, name in sorted(set(allg)):
         s, d = ctx[src], ctx[dst]
         if s.CurrencyZone is d.CurrencyZone:
             continue
+        # a flow registered n times (n instalments) is booked n times: -n on the sender (every flow of this amount variable it sends), +n * rate on the receiver
+        n_out = len([g for g in allg if g[0] == src and g[2] == name])
+        n_in = len([g for g in allg if g == (src, dst, name)])
         x = S.var(s.GetVariableName(name), 'b')
         xs = S.var(xr.GetVariableName(s.CurrencyZone.Currency), 'b')
         xt = S.var(xr.GetVariableName(d.CurrencyZone.Currency), 'b')
-        for who, sec, want, wtxt in (('sender', s, z3.RealVal(-1), '-1'), ('receiver', d, xs / xt, 'XR_src/XR_tgt')):
+        for who, sec, want, wtxt in (('sender', s, z3.RealVal(-n_out), '-%d' % n_out), ('receiver', d, n_in * xs / xt, '%d*XR_src/XR_tgt' % n_in)):
             c = coef(S, sec, None, x)
             v, m = su.entail(c == want)
             ob = {'kind': 'flow-coefficient', 'what': '%s %s of %s: dF/d%s = %s' % (who, sec.FullCode, name, s.GetVariableName(name), wtxt),
@@ -77,8 +81,8 @@ def work(item):
                                'want = %s\n'
                                'bad = c != want; print("coefficient", float(c), "expected", float(want))'
                                % (sec.GetVariableName('F'), s.GetVariableName(name), s.GetVariableName(name),
-                                  'F(-1)' if who == 'sender' else 'b[%r]/b[%r]' % (xr.GetVariableName(s.CurrencyZone.Currency),
-                                                                                  xr.GetVariableName(d.CurrencyZone.Currency))))
+                                  'F(-%d)' % n_out if who == 'sender' else '%d*b[%r]/b[%r]' % (n_in, xr.GetVariableName(s.CurrencyZone.Currency),
+                                                                                              xr.GetVariableName(d.CurrencyZone.Currency))))
             rec['obs'].append(ob)
     # cross-zone suppliers: supplier's own supply variable = market's assigned amount * XR_buyer/XR_seller, booked +1
     for cb, cs in plan.meta.get('imports', []):
